@@ -287,7 +287,66 @@ def execute_nested(desc):
         s.cleanup()
 
 
+def execute_ports(desc):
+    """Lock ports at and beyond the end of the valid range (65535, 65536, 70000, 131072): whatever the
+    implementation makes of such a value, two invocations that share it must never both be past
+    acquisition; if it rejects the value, it must reject it for every invocation. Run serially in one
+    task because 65535 is a real, fixed port."""
+    s = sc.Scratch("c14p")
+    try:
+        viol = []
+        trans = 0
+        for port in desc["ports"]:
+            for api in desc["apis"]:
+                r = sc.Repo(s, "r%d-%s" % (port, api), TARGETS, commands={"a": {"build": "x"}, "b": {"build": "x"}})
+                if r.mr("checkpoint", "update").code != 0:
+                    raise common.EngineError("seed checkpoint failed")
+                r.cfg["server"]["lock"]["port"] = port
+                r.write_cfg()
+                r.commit("lock port %d" % port)
+                c = ctlmod.Controller(s)
+                try:
+                    env = s.env(c.env())
+                    h = c.spawn("holder", [common.MONORAIL, "run", "-c", "build", "-t", "a", "b"], r.dir, env)
+                    c.wait(lambda: len(c.waiting()) >= 1 or h.done(), 15)
+                    holding = not h.done() and len(c.waiting()) >= 1
+                    before = sc.snapshot(os.path.join(r.out_dir(), "tracking"))
+                    con = r.mr(*APIS[api])
+                    after = sc.snapshot(os.path.join(r.out_dir(), "tracking"))
+                    trans += 2
+                    ej = con.err_json() or {}
+                    if holding:
+                        if con.code == 0:
+                            viol.append(("two-holders", "lock port %d: %s ran to completion (exit 0) while a run holds the lock for the same configured address" % (port, " ".join(APIS[api]))))
+                        elif ej.get("type") != "server":
+                            viol.append(("loser-not-a-lock-error", "lock port %d: %s exited %s with %s" % (port, " ".join(APIS[api]), con.code, con.err[:200])))
+                        if after != before:
+                            viol.append(("loser-modified-state", "lock port %d: %s changed <out_dir>/tracking while a run holds the lock" % (port, " ".join(APIS[api]))))
+                    else:
+                        # the value was refused for the run: then it must be refused for everybody
+                        if con.code == 0:
+                            viol.append(("lock-address-accepted-by-some", "lock port %d: the run refused it (exit %s %s) but %s exited 0" % (port, h.code, h.err[:120], " ".join(APIS[api]))))
+                    t_end = time.time() + 15
+                    while not h.done() and time.time() < t_end:
+                        c.pump(0.01)
+                        for ch in list(c.waiting()):
+                            c.release(ch, 0)
+                finally:
+                    c.close()
+        return {"evaluations": len(desc["ports"]) * len(desc["apis"]), "nontrivial": 1, "states": [["ports"] + list(map(str, desc["ports"]))], "transitions": trans,
+                "violations": [{"sig": sig, "detail": d, "rank": 40, "case": {"c14p": desc}} for sig, d in viol],
+                "sample": {"lock_ports": desc["ports"], "apis": desc["apis"]}}
+    except common.EngineError as e:
+        return {"engine_error": str(e)}
+    except Exception:
+        return {"engine_error": traceback.format_exc()[-1500:]}
+    finally:
+        s.cleanup()
+
+
 def _exec_any(desc):
+    if "ports" in desc:
+        return execute_ports(desc)
     return execute_nested(desc) if "nested" in desc else execute(desc)
 
 
@@ -307,6 +366,7 @@ def scenarios(tier):
     for kind in ("child-of-holder", "orphan-of-killed-holder"):
         for api in names:
             out.append({"nested": kind, "api": api})
+    out.append({"ports": [65535, 65536, 70000, 131072], "apis": ["checkpoint_update", "out_delete"] if tier == "quick" else names})
     return out
 
 
@@ -325,7 +385,7 @@ def run(prop, tier):
            "distinct_nontrivial": sum(r["nontrivial"] for r in results),
            "violations": [v for r in results for v in r["violations"]],
            "samples": [r["sample"] for r in results[:: max(1, len(results) // 5)]][:6], "exhaustive": True,
-           "rule": "contenders: every ordered pair (thorough: plus every multiset of 3) over {run, checkpoint update, checkpoint delete, out delete --all}, all started and held at lock.pre; every maximal sequence of {attempt i, finish holder, kill holder (SIGKILL)}, plus for pairs an attempt that is still in progress (2 s, bind timeout raised to 6 s) when the holder finishes or is killed; plus contenders that descend from a holder (a command executable of the holding run, or the orphaned executable of a SIGKILLed run while another run holds, starts each of the four APIs with the environment monorail gave it); each sequence executed from scratch on real processes against a repository with a checkpoint and a completed run; invariants: never two contenders past lock acquisition; an attempt while somebody holds exits non-zero with a server lock error, starts no executable and leaves <out_dir> byte-identical (also compared with its state before any contender was started, as long as no holder has worked); an attempt while nobody holds (initially, after exit, after SIGKILL) acquires at once; states = (contender statuses, holder) per contender tuple"}
+           "rule": "contenders: every ordered pair (thorough: plus every multiset of 3) over {run, checkpoint update, checkpoint delete, out delete --all}, all started and held at lock.pre; every maximal sequence of {attempt i, finish holder, kill holder (SIGKILL)}, plus for pairs an attempt that is still in progress (2 s, bind timeout raised to 6 s) when the holder finishes or is killed; plus contenders that descend from a holder (a command executable of the holding run, or the orphaned executable of a SIGKILLed run while another run holds, starts each of the four APIs with the environment monorail gave it); plus lock ports at and beyond the end of the valid range (65535, 65536, 70000, 131072) shared by a holding run and a contender; each sequence executed from scratch on real processes against a repository with a checkpoint and a completed run; invariants: never two contenders past lock acquisition; an attempt while somebody holds exits non-zero with a server lock error, starts no executable and leaves <out_dir> byte-identical (also compared with its state before any contender was started, as long as no holder has worked); an attempt while nobody holds (initially, after exit, after SIGKILL) acquires at once; states = (contender statuses, holder) per contender tuple"}
     by = {}
     for v in agg["violations"]:
         by[v["sig"]] = by.get(v["sig"], 0) + 1
@@ -338,7 +398,7 @@ def run(prop, tier):
 
 def replay(prop, path):
     body = json.load(open(path))
-    r = _exec_any(body["case"].get("c14n") or body["case"]["c14"])
+    r = _exec_any(body["case"].get("c14p") or body["case"].get("c14n") or body["case"]["c14"])
     if "engine_error" in r:
         print("ENGINE:", r["engine_error"])
         return 2
